@@ -14,6 +14,10 @@ cp "$V"/harness/geom/*.go "$D/m/internal/geom/"
 # the geometry harness lives in package geom (it needs unexported functions); it shares the infrastructure files
 sed 's/^package verifh$/package geom/' "$V"/harness/verifh/infra_test.go > "$D/m/internal/geom/zz_verif_infra_test.go"
 sed 's/^package verifh$/package geom/' "$V"/harness/verifh/replay_test.go > "$D/m/internal/geom/zz_verif_replay_test.go"
+# the crossing-counter harness (C12K) lives in package phase3 for the same reason
+cp "$V"/harness/phase3/*.go "$D/m/internal/phase3/"
+sed 's/^package verifh$/package phase3/' "$V"/harness/verifh/infra_test.go > "$D/m/internal/phase3/zz_verif_infra_test.go"
+sed 's/^package verifh$/package phase3/' "$V"/harness/verifh/replay_test.go > "$D/m/internal/phase3/zz_verif_replay_test.go"
 cd "$D/m"
 if ! grep -q 'pgregory.net/rapid' go.mod; then
   printf '\nrequire pgregory.net/rapid v1.3.0\n' >> go.mod
